@@ -234,12 +234,14 @@ class MetadataBase(object):
         value = getattr(self, field)
         for pattern in expected_patterns:
             try:
-                if pattern.match(value):
-                    return
+                match = pattern.match(value)
             except AttributeError:
                 # It's not a compiled regex, treat it as string.
-                if re.match(pattern, value):
-                    return
+                match = re.match(pattern, value)
+            # '$' also matches just before a trailing newline; a value that
+            # ends with one doesn't match the pattern as a whole
+            if match and not (value.endswith("\n") and match.end() < len(value)):
+                return
         raise ValueError("%s: Field '%s' has invalid value: %s. It does not match any provided REs: %s"
                          % (self.__class__.__name__, field, value, expected_patterns))
 
